@@ -68,6 +68,7 @@ uint64_t vf_os_table_hash(void);
 void   vf_os_adopt(void* addr, size_t len, int prot);    /* register harness-owned memory handed to mimalloc */
 void   vf_os_plan_clear(void);
 const char* vf_os_kind_name(int kind);
+void   vf_os_dump(int fd);
 size_t vf_os_resident_bytes(uintptr_t lo, uintptr_t hi); /* mincore() over mapped RW regions in [lo,hi) */
 
 /* the real calls, for harness use */
